@@ -110,11 +110,9 @@ def _setup(pmap, target, exists):
 
 
 def _fresh_tmp():
-    import tempfile
+    import zorg.service.templates  # noqa: F401  (make sure the module is loaded)
 
-    from zorg.service import templates
-
-    templates.ZorgTemplateManager.tmp_dir = tempfile.TemporaryDirectory(dir=str(H.scratch_root()))
+    H.private_template_dir()
 
 
 def _run_two_inits(ctx, case) -> F.Outcome:
@@ -250,7 +248,69 @@ def _run_route(ctx, case) -> F.Outcome:
     return out
 
 
+def _run_leak(ctx, case) -> F.Outcome:
+    """Two initialisations in ONE process: the first target's pattern captures a variable,
+    the second one's does not - the second page is rendered from ITS path only."""
+    import os
+    import yaml
+    from zorg.service.templates import init_from_template
+
+    _, mode, first_ti = case
+    H.freeze(DAY)
+    out = F.Outcome()
+    zd = _setup([], "work_log.zo", False)
+    try:
+        # pattern 3 captures `name`, pattern 2 captures `date`; pattern 0 (notes.zo) captures nothing
+        order = [3, 2, 0]
+        first, second = TARGETS[first_ti], "notes.zo"
+        problems = []
+        if mode in ("fn", "fn-dict"):
+            pmap = {re.compile(PATTERNS[pi]): Path(f"t{pi}.zot") for pi in order}
+            mine: dict = {}
+            for tgt in (first, second):
+                init_from_template(zd, pmap, Path(tgt), var_map=mine if mode == "fn-dict" else None)
+            if mine:
+                problems.append(("callers-variable-map-was-modified", {"map_after": {k: str(v) for k, v in mine.items()}}))
+        else:
+            r = Z.db_create(zd, DAY)
+            if not Z.cli_ok(r):
+                raise H.HarnessError("c16 leak setup: db create failed " + r.err[-300:])
+            snap = zd.parent / "snap"
+            snap.mkdir()
+            ed = zd.parent / "fake-editor.sh"
+            ed.write_text(FAKE_EDITOR)
+            ed.chmod(0o755)
+            cfg = zd.parent / "cfg.yml"
+            with open(cfg, "w") as f:
+                yaml.dump({"template_pattern_map": {PATTERNS[pi]: f"t{pi}.zot" for pi in order},
+                           "vim_exe": str(ed), "keep_alive_file": str(zd.parent / "keep-alive")}, f, sort_keys=False)
+            os.environ["ZORG_VERIF_SNAP"] = str(snap)
+            H.run_cli(zd, "edit", first, second, cfg=cfg, day=DAY)
+        for tgt in (first, second):
+            _, want = expected(order, tgt, False, False, False, {})
+            if mode == "edit":
+                pth = zd.parent / "snap" / Path(tgt).name
+            else:
+                pth = zd / tgt
+            got = pth.read_text() if pth.exists() else None
+            if got != want:
+                problems.append(("content-differs-from-first-matching-template:after-an-earlier-initialisation-in-the-process",
+                                 {"target": tgt, "initialised_before": first if tgt == second else None,
+                                  "expected": want, "observed": got}))
+        out.obs = H.digest([mode, first, [p[0] for p in problems]])
+        out.nontrivial = H.digest(case)
+        if problems:
+            out.ok = False
+            out.sig = problems[0][0]
+            out.detail = {"mode": mode, "targets_in_order": [first, second], "problem": problems[0][1]}
+    finally:
+        Z.drop(zd)
+    return out
+
+
 def _run_case(ctx, case) -> F.Outcome:
+    if case[0] == "leak":
+        return _run_leak(ctx, case)
     if case[0] == "two":
         return _run_two_inits(ctx, case)
     if case[0] in ("edit", "open"):
@@ -365,6 +425,10 @@ def _cases(ctx):
                 for overwrite in (False, True):
                     explicit = (ti + len(pmap)) % 2 == 0
                     cases.append(["cli", pmap, ti, exists, overwrite, explicit, (ti + overwrite) % 2])
+    # a variable captured for one page must not reach the next page initialised in the process
+    for mode in ("fn", "fn-dict", "edit"):
+        for first_ti in (2, 1):  # work_log.zo captures name, 20240304.zo captures date
+            cases.append(["leak", mode, first_ti])
     # through `zorg edit` and through opening a page link
     for route in ("edit", "open"):
         for pmap in [[]] + [[i] for i in range(len(PATTERNS))] + [[1, 0], [0, 1], [7, 3]]:
@@ -375,6 +439,8 @@ def _cases(ctx):
 
 
 def _sample(case):
+    if case[0] == "leak":
+        return {"two_initialisations_in_one_process": [TARGETS[case[2]], "notes.zo"], "via": case[1]}
     if case[0] in ("edit", "open"):
         return {"via": "zorg edit TARGET (stand-in editor)" if case[0] == "edit" else "zorg action open on a line with [[TARGET]]",
                 "pattern_map_in_order": [PATTERNS[pi] for pi in case[1]], "target": TARGETS[case[2]], "target_exists": case[3]}
